@@ -47,6 +47,16 @@ CHECKS = {
             "All 11664 ordered pairs of 108 references (all six comparison operators, hash, supports), transitivity triples (all in thorough), every subset of <=3/<=4 pool versions in every registration order via synthetic entry points on a fresh plugin-group instance and via register_in_group, name codec round trips, UndefVersion subclassing.",
             "small-scope: 2 groups x 2 names x versions {0,1,2}^3; 12-element version pool",
             "4 C16"),
+    "C18": ("exploration",
+            "brute-force oracle + executable tree transformer over DirDiff; exhaustive over all pairs of 400 small trees, random larger trees, real directories with annotate()",
+            "All 160000 ordered pairs of the small-tree space are compared in both tiers: reported paths == changed paths, per-node prev/curr/status, get() vs listing, and replay of nodes() in order with the stated preconditions must produce the new tree.",
+            "small scope: names {a,b}, depth <=2; larger trees only sampled",
+            "4 C18"),
+    "C19": ("exploration",
+            "independent-walker oracle (os.scandir/readlink/hashlib) on generated real directory trees, equal-content pairs, single edits, digest checks at block boundaries incl. short-reading streams, escaping links",
+            "Generated directory trees are created twice (shuffled order, other mtimes) and hashed by the real dir_hashsums; result must equal the independent walker and each other; every single edit must change the tree; escaping links must raise.",
+            "symlink targets compared after resolution",
+            "4 C19"),
 }
 
 NOT_YET = {
